@@ -643,6 +643,9 @@ pub fn run(c: &mut Ctx) {
         let g = gm::valid_message(&mut rng, if big { 400 } else if miri { 3 } else { 8 }, !big);
         if idx % 8 == 0 {
             one_input(c, fam, idx, &g.octets, "valid");
+        } else if idx % 8 == 1 {
+            let m = gm::typed_hostile_message(&mut rng);
+            one_input(c, fam, idx, &m, "typed-hostile");
         } else {
             let (m, kind) = gm::mutate(&mut rng, &g);
             // sometimes stack a second mutation
@@ -753,7 +756,7 @@ pub fn run(c: &mut Ctx) {
         c.floor("records_accepted", 1000);
         c.floor("records_rejected", 100);
         c.floor("compressed_names", 1000);
-        for k in ["valid", "count", "pointer-retarget", "pointer-inject", "pointer-cycle", "label-type", "rdlen", "truncate", "rdata-inner", "long-name", "pointer-chain", "random", "ptr-exhaustive"] {
+        for k in ["valid", "typed-hostile", "count", "pointer-retarget", "pointer-inject", "pointer-cycle", "label-type", "rdlen", "truncate", "rdata-inner", "long-name", "pointer-chain", "random", "ptr-exhaustive"] {
             c.floor(&format!("inputs_{}", k), 1);
         }
     }
